@@ -319,10 +319,13 @@ static void exec_lattice(Plan const& p, Report& rep)
     {
         // every enabled channel got one lattice: combine the channel means with the recorded weights
         estimate = 0;
-        // the recorded weights are used as they are: if they do not sum to one, the estimate is off
+        // channel i is selected with probability alpha_i / sum(alpha) (the selector normalises), the
+        // point weight uses alpha_i as recorded: unbiased only if the recorded weights sum to one
+        ld tot = 0;
+        for (ld a : rv.weights) tot += a;
         for (std::size_t b = 0; b != blocks.size(); ++b)
         {
-            estimate += rv.weights[blocks[b]] * block_sum[b] / N;
+            estimate += rv.weights[blocks[b]] / tot * block_sum[b] / N;
         }
         what = "sum_i alpha_i mean_i(f w)";
     }
